@@ -126,6 +126,7 @@ type c10Case struct {
 	NodeDir    c10Dir `json:"nodeDir"`
 	Target     int    `json:"target"`     // index into c10Fields, or -1-idx into c10Vars
 	Alias      string `json:"alias"`      // response alias ("" = none)
+	InFragment bool   `json:"inFragment,omitempty"` // the target is selected inside a named fragment (which carries the directives) that the query spreads: genqlient.yaml and the fragment's own options apply there just the same
 	Bystander  bool   `json:"bystander"`  // a second field (`take`) starts on the SAME source line as the target: the node-level comment reaches it (documented: "all nodes on the following line"), a `for:` entry for the target must not
 }
 
@@ -172,9 +173,12 @@ func runC10(c *Ctx) {
 										if dc != "" && (len(nd) > 0 || len(od) > 0) {
 											continue // decoys are crossed with the for/alias dimensions only
 										}
-										c10Run(c, c10Case{opt, sr, od, fd, dc, nd, t, al, false})
+										c10Run(c, c10Case{Optional: opt, StructRefs: sr, OpDir: od, ForDir: fd, Decoy: dc, NodeDir: nd, Target: t, Alias: al})
+										if t >= 0 && dc == "" && al == "" {
+											c10Run(c, c10Case{Optional: opt, StructRefs: sr, OpDir: od, ForDir: fd, Decoy: dc, NodeDir: nd, Target: t, Alias: al, InFragment: true})
+										}
 										if t >= 0 && nd["alias"] == nil {
-											c10Run(c, c10Case{opt, sr, od, fd, dc, nd, t, al, true})
+											c10Run(c, c10Case{Optional: opt, StructRefs: sr, OpDir: od, ForDir: fd, Decoy: dc, NodeDir: nd, Target: t, Alias: al, Bystander: true})
 										}
 									}
 								}
@@ -196,6 +200,7 @@ func runC10(c *Ctx) {
 		} else {
 			cs.Target = r.Intn(len(c10Fields))
 			cs.Bystander = r.Chance(1, 2) && cs.NodeDir["alias"] == nil
+			cs.InFragment = r.Chance(1, 4)
 		}
 		c10Run(c, cs)
 	}
@@ -274,6 +279,13 @@ func c10Run(c *Ctx, cs c10Case) {
 		ops.WriteString("  " + fld.Name + fld.Sub + by + "\n")
 	}
 	ops.WriteString("}\n")
+	respStruct := "QResponse"
+	if cs.InFragment {
+		txt := "query Q {\n  ...F\n}\n\n" + strings.Replace(ops.String(), "query Q {\n", "fragment F on Query {\n", 1)
+		ops.Reset()
+		ops.WriteString(txt)
+		respStruct = "F"
+	}
 	prog := &Program{Schema: map[string]string{"schema.graphql": c10Schema}, Ops: map[string]string{"ops.graphql": ops.String()},
 		Cfg: ProgCfg{Package: "gen", Optional: cs.Optional, StructReferences: cs.StructRefs,
 			Bindings: map[string]map[string]string{"Date": {"type": "verifharness/sup.Date"}}}}
@@ -281,7 +293,7 @@ func c10Run(c *Ctx, cs c10Case) {
 		prog.Cfg.OptionalGeneric = "verifharness/sup.Option"
 	}
 	out := runGenerate(c.Work, prog, false)
-	key := fmt.Sprintf("%s|%v|%v|%v|%s|%v|%d|%s|%v", cs.Optional, cs.StructRefs, cs.OpDir, cs.ForDir, cs.Decoy, cs.NodeDir, cs.Target, cs.Alias, cs.Bystander)
+	key := fmt.Sprintf("%s|%v|%v|%v|%s|%v|%d|%s|%v|%v", cs.Optional, cs.StructRefs, cs.OpDir, cs.ForDir, cs.Decoy, cs.NodeDir, cs.Target, cs.Alias, cs.Bystander, cs.InFragment)
 	if out.Panic != nil || out.TimedOut {
 		c.Res.Count("outcome:panic (C07)")
 		return
@@ -296,11 +308,11 @@ func c10Run(c *Ctx, cs c10Case) {
 	c.Res.Count("outcome:accepted")
 	c.Res.NonTrivial(key)
 	// read the field of QResponse whose tag is the response key
-	goType, goName, tag, found := c10ResponseField(out.Files["generated.go"], "QResponse", respKey)
+	goType, goName, tag, found := c10ResponseField(out.Files["generated.go"], respStruct, respKey)
 	m := c.Model(map[string]any{"op": "conv.fieldType", "optional": cs.Optional, "structRefs": cs.StructRefs, "kind": fld.Kind, "node": cs.NodeDir, "opDir": cs.OpDir,
 		"forTable": forTable, "parentType": "Query", "fieldName": fld.Name, "alias": respKey, "type": fld.Type})
 	if !found {
-		fail("violation", "field-missing", "QResponse has no field for response key "+respKey, nil, nil)
+		fail("violation", "field-missing", respStruct+" has no field for response key "+respKey, nil, nil)
 		return
 	}
 	bases := map[string]string{"sup.Text": "R(verifharness/sup.Text)", "sup.Raw": "R(verifharness/sup.Raw)", "sup.Blob": "R(verifharness/sup.Blob)"}
@@ -336,7 +348,7 @@ func c10Run(c *Ctx, cs c10Case) {
 	type side struct{ parent, name, gql, structName string }
 	var sides []side
 	if cs.Bystander {
-		sides = append(sides, side{"Query", "take", "Int", "QResponse"})
+		sides = append(sides, side{"Query", "take", "Int", respStruct})
 	}
 	if fld.Kind == "object" {
 		base := strings.TrimLeft(goType, "[]*")
